@@ -11,6 +11,53 @@ def load_schema():
     return json.load(open(os.path.join(common.ROOT, 'gen', 'schema.json')))
 
 
+T_TAG = 999997      # an empty Tuple returned by the visitor
+F_TAG = 999998      # a falsy node object of the harness returned by the visitor
+_falsy_cls = []
+
+
+def replacement(kind):
+    """node objects a visitor may answer with: 'const' Constant(R_TAG); 'tuple0' an empty `Tuple`;
+    'falsy' an object whose `__bool__` is False (harness class — no library class is falsy); library-made
+    replacements of other classes come from `replacement_pool`"""
+    from mindsdb_sql.parser.ast import Constant, Tuple
+    if kind == 'const':
+        r = Constant(R_TAG)
+        r._verif_tag = R_TAG
+    elif kind == 'tuple0':
+        r = Tuple(items=[])
+        r._verif_tag = T_TAG
+    elif kind == 'falsy':
+        if not _falsy_cls:
+            _falsy_cls.append(type('FalsyProbe', (Constant,), {'__bool__': lambda self: False}))
+        r = _falsy_cls[0](F_TAG)
+        r._verif_tag = F_TAG
+        r._verif_cls = 'falsy'
+    else:
+        raise ValueError(kind)
+    return r
+
+
+def replacement_pool():
+    """constructors of replacement nodes of many classes, including empty containers and falsy-looking constants:
+    every one of them is a node and has to take the place of the visited node"""
+    from mindsdb_sql.parser import ast as A
+    makers = [
+        lambda: A.Constant(0), lambda: A.Constant(''), lambda: A.Constant(False), lambda: A.NullConstant(),
+        lambda: A.Tuple(items=[]), lambda: A.Tuple(items=[A.Constant(1)]), lambda: A.Function(op='f', args=[]),
+        lambda: A.Identifier(parts=['r']), lambda: A.Star(), lambda: A.Select(targets=[]), lambda: A.Parameter('?'),
+        lambda: A.Case(rules=[]), lambda: A.BinaryOperation(op='and', args=[A.Constant(1), A.Constant(2)]),
+        lambda: A.Select(targets=[A.Star()], from_table=A.Identifier(parts=['t'])),
+    ]
+    out = []
+    for m in makers:
+        try:
+            out.append((m, type(m()).__name__))
+        except Exception:
+            pass
+    return out
+
+
 def tagger(num):
     from mindsdb_sql.parser.ast import Constant
 
@@ -18,6 +65,9 @@ def tagger(num):
         k = num.ids.get(id(o))
         if k is not None:
             return k
+        t = getattr(o, '_verif_tag', None)
+        if t is not None:
+            return t
         if isinstance(o, Constant) and isinstance(o.value, int) and o.value >= R_TAG:
             return o.value
         return -1
@@ -30,7 +80,8 @@ def rose_after(root, schema, tagof):
 
     def rec(n, slot):
         cn = type(n).__name__
-        parts = ['(%d %d %d' % (cid.get(cn, 0), slot, tagof(n))]
+        c = len(schema['class_names']) if getattr(n, '_verif_cls', None) == 'falsy' else cid.get(cn, 0)
+        parts = ['(%d %d %d' % (c, slot, tagof(n))]
         sl = schema['classes'].get(cn, {}).get('slot_id', {})
         for attr, path, c in walkspec.children(n):
             parts.append(rec(c, sl.get(attr, 0)))
@@ -72,8 +123,8 @@ def real_walk(schema, root, num, mode, arg=None):
         def cb(node, **kw):
             rec(node, None, kw)
         res = utils.query_traversal(root, cb)
-    elif mode == 'rep':
-        R = Constant(R_TAG)
+    elif mode in ('rep', 'rept', 'repf'):
+        R = replacement({'rep': 'const', 'rept': 'tuple0', 'repf': 'falsy'}[mode])
         tgt = num.nodes[arg]
 
         def cb(node, **kw):
@@ -208,6 +259,11 @@ def oracle(schema, root, rng, n_rep=3):
             continue
         k = num.ids.get(id(node))
         if k is None:
+            if not isinstance(node, walkspec.astnode()):
+                pc = type(par).__name__ if par is not None else '?'
+                fails.append(dict(cls=pc, slot='?', dev='nonnode',
+                                  detail='the visitor was called with %r (%s), which is not a node of the statement'
+                                         % (node, type(node).__name__)))
             continue
         first.setdefault(k, i)
         count[k] = count.get(k, 0) + 1
@@ -272,21 +328,28 @@ def oracle(schema, root, rng, n_rep=3):
     for x in (rng.sample(visited, n_rep) if len(visited) > n_rep else visited):
         r1 = copy.deepcopy(root)
         n1 = walkspec.Numbering(r1)
-        from mindsdb_sql.parser.ast import Constant
         from mindsdb_sql.planner import utils
-        R = Constant(R_TAG)
+        # the answer: alternately a plain constant and a node of some other class (empty containers, falsy-looking
+        # constants, queries, …) — whatever node the visitor returns has to take the place of the visited node
+        pool = replacement_pool()
+        mk, rcls = (lambda: replacement('const'), 'Constant') if rng.random() < 0.4 or not pool else rng.choice(pool)
+        R = mk()
+        R._verif_tag = R_TAG
         tgt = n1.nodes[x]
         utils.query_traversal(r1, lambda node, **kw: R if node is tgt else None)
         got = rose_after(r1, schema, tagger(n1))
-        # expected: the same tree with the subtree of x replaced by the leaf R
+        # expected: the same tree with the subtree of x replaced by R
         pk, attr, path = n1.parent[x]
         r2 = copy.deepcopy(root)
         n2 = walkspec.Numbering(r2)
-        walkspec.set_child(n2.nodes[pk], attr, path, Constant(R_TAG))
+        R2 = mk()
+        R2._verif_tag = R_TAG
+        walkspec.set_child(n2.nodes[pk], attr, path, R2)
         want = rose_after(r2, schema, tagger(n2))
         if got != want:
-            fails.append(dict(cls=type(n1.nodes[pk]).__name__, slot=attr, dev='replace',
-                              detail='a node returned for node %d does not take exactly its place' % x))
+            fails.append(dict(cls=type(n1.nodes[pk]).__name__, slot=attr, dev='replace', answer=rcls,
+                              detail='a node (%s%s) returned for node %d does not take exactly its place'
+                                     % (rcls, ' without children' if not walkspec.children(R2) else '', x)))
         else:
             for k2, nd in enumerate(n1.nodes):
                 for al, attr2 in walkspec.stale_aliases(nd):
